@@ -49,6 +49,7 @@ def _worker(job):
                                     'smt2': (v.smt2 or '')[:20000] if v.status != 'discharged' else None,
                                     'reason': v.reason})
         out['samples'] = samples
+        out['crosscheck'] = dict(vc.CROSSCHECK)
         out['events_sample'] = []
         expected = sc.get('expect_obligations')
         if not res.obligations and not res.unsupported:
@@ -160,6 +161,8 @@ def main(argv=None):
     ap.add_argument('--verbose', '-v', action='store_true')
     args = ap.parse_args(argv)
     prop, tier = args.prop, args.tier
+    if tier == 'thorough' and 'PYVC_CROSSCHECK' not in os.environ:
+        os.environ['PYVC_CROSSCHECK'] = '12'          # thorough: up to 12 discharged obligations per scenario get a second and third opinion
     seed = int(os.environ.get('VERIF_SEED', '0') or 0)
     t0 = time.time()
     os.makedirs(os.path.join(ROOT, 'evidence'), exist_ok=True)
@@ -301,6 +304,11 @@ def main(argv=None):
                                     'z3 / cvc5 soundness'],
             'backends': backends,
             'solver_ms_total': round(sum(o['ms'] for o in obligations), 1),
+            'second_opinion': {'asked': sum((r.get('crosscheck') or {}).get('asked', 0) for r in results),
+                               'confirmed_unsat_by_cvc5_or_z3_4_8': sum((r.get('crosscheck') or {}).get('agree', 0) for r in results),
+                               'no_answer': sum((r.get('crosscheck') or {}).get('unknown', 0) for r in results),
+                               'disagreements': [x for r in results for x in (r.get('crosscheck') or {}).get('disagree', [])],
+                               'note': 'thorough tier only: a sample of the obligations z3 5.1 discharged is put to cvc5 1.0 and z3 4.8 independently'},
             'scenarios': len(results), 'paths_explored': sum(r['paths'] for r in results),
             'functions_under_contract': fuc,
             'obligation_list': _summarise(obligations),
